@@ -225,6 +225,19 @@ func expSize(v *ds.VMValue, memo map[any]int64, onPath map[any]bool) int64 {
 		}
 		key = d
 		d.Attrs.Range(func(k string, e *ds.VMValue) bool { kids = append(kids, e); return true })
+	case *ds.FunctionData:
+		// a bound method carries the value it is bound to
+		if d == nil || d.Self == nil {
+			return 1
+		}
+		key = d
+		kids = []*ds.VMValue{d.Self}
+	case *ds.NativeFunctionData:
+		if d == nil || d.Self == nil {
+			return 1
+		}
+		key = d
+		kids = []*ds.VMValue{d.Self}
 	default:
 		return 1
 	}
